@@ -92,6 +92,7 @@ type world struct {
 	cancel   context.CancelFunc
 	silIDs   map[int]string
 	pipeline notify.Stage
+	gm       marker.GroupMarker // the group marker of the running dispatcher (what the API's GroupMutedFunc reads)
 }
 
 func (w *world) abs(off int64) time.Time { return w.t0.Add(time.Duration(off)) }
@@ -202,12 +203,22 @@ func (s recStage) Exec(ctx context.Context, l *slog.Logger, as ...*alert.Alert) 
 	if err != nil {
 		res = "err"
 	}
-	s.w.record(gshort(gkey), "end", 0, res+" "+s.w.entries(gkey))
+	// the group's muted marker as GET /api/v2/alerts/groups reads it (GroupMarker.Muted(routeID, groupKey)), right after the flush
+	mk := "0"
+	if rid, ok := notify.RouteID(ctx); ok {
+		if _, muted := s.w.gm.Muted(rid, gkey); muted {
+			mk = "1"
+		}
+	}
+	s.w.record(gshort(gkey), "end", 0, res+" "+s.w.entries(gkey)+" "+mk)
 	return c, out, err
 }
 
 // entries renders the log entries of one group, one per integration: ts,firing,resolved | none
 func (w *world) entries(gkey string) string {
+	if len(w.srs) == 0 {
+		return "-" // a receiver without integrations (blackhole) has no log entries
+	}
 	out := make([]string, len(w.srs))
 	for i := range w.srs {
 		es, err := w.log.Query(nflog.QGroupKey(gkey), nflog.QReceiver(&pbn.Receiver{GroupName: "r", Integration: "fake", Idx: uint32(i)}))
@@ -331,6 +342,7 @@ func (w *world) startDispatcher() {
 		ints = append(ints, notify.NewIntegration(w.nots[i], sr(s), "fake", i, "r"))
 	}
 	gm := marker.NewGroupMarker()
+	w.gm = gm
 	pbld := notify.NewPipelineBuilder(prometheus.NewRegistry(), featurecontrol.NoopFlags{}, rec)
 	pipe := pbld.New(map[string][]notify.Integration{"r": ints}, func() time.Duration { return 0 },
 		w.inhr, silencer, timeinterval.NewIntervener(tis), gm, w.log, nil)
@@ -527,7 +539,7 @@ func runCase(t *testing.T, tr *hx.Trace, id int, r *rand.Rand, script []string) 
 					w.mute = kv[1]
 				case "active":
 					w.active = kv[1]
-				case "sr":
+				case "sr": // empty: the receiver has no integrations (a blackhole receiver)
 					for _, c := range kv[1] {
 						w.srs = append(w.srs, c == '1')
 					}
@@ -544,7 +556,11 @@ func runCase(t *testing.T, tr *hx.Trace, id int, r *rand.Rand, script []string) 
 			w.repeat = time.Duration(int64(1+r.IntN(5)) * 30 * sec)
 			w.retention = time.Duration(int64(2+r.IntN(6)) * 60 * sec)
 			srs := ""
-			for range 1 + r.IntN(2) {
+			nint := 1 + r.IntN(2)
+			if r.IntN(12) == 0 {
+				nint = 0 // a receiver without any integration (`- name: blackhole`): every flush succeeds, nothing is sent
+			}
+			for range nint {
 				b := r.IntN(3) > 0
 				w.srs = append(w.srs, b)
 				if b {
@@ -578,6 +594,7 @@ func runCase(t *testing.T, tr *hx.Trace, id int, r *rand.Rand, script []string) 
 		w.start()
 		defer w.stop()
 		tr.Linef("%s", header)
+		storedEnd := map[int]int64{} // per alert id: the end the provider stored at its last post
 		do := func(line string) {
 			// everything that happens while the clock advances to the op's instant precedes the op
 			w.sleepTo(hx.Atoi64(strings.Fields(line)[1]))
@@ -587,6 +604,12 @@ func runCase(t *testing.T, tr *hx.Trace, id int, r *rand.Rand, script []string) 
 			obs := w.exec(line)
 			synctest.Wait()
 			tr.Linef("%s -> %s", line, obs)
+			if f := strings.Fields(line); f[0] == "post" {
+				if o := strings.Fields(obs); len(o) == 3 {
+					id, _ := strconv.Atoi(f[2])
+					storedEnd[id] = hx.Atoi64(o[1])
+				}
+			}
 			for _, e := range w.drain() {
 				tr.Linef("%s", e)
 			}
@@ -624,15 +647,32 @@ func runCase(t *testing.T, tr *hx.Trace, id int, r *rand.Rand, script []string) 
 				default:
 					end = now + 5*60*sec
 				}
+				if e, ok := storedEnd[id]; ok && e <= now && r.IntN(3) == 0 {
+					// the alert fires again, starting at the very instant its stored (resolved) episode ended: no overlap,
+					// a new episode with its own start (a group re-created for it gets a fresh group_wait)
+					start = e
+					if end < start {
+						end = now + 5*60*sec
+					}
+				}
 				do(fmt.Sprintf("post %d %d %d %d", now, id, start, end))
 			case x < 60:
 				now += int64(r.IntN(60)) * sec
 				do(fmt.Sprintf("adv %d", now))
 			case x < 68:
+				if (w.mute != "-" || w.active != "-") && r.IntN(2) == 0 {
+					// a route with time intervals: silence a whole group for a long while, so that flushes in which
+					// every alert is silenced happen on both sides of the interval's boundaries (the muted marker must follow)
+					b := 1 + 2*r.IntN(2)
+					d := int64(120+r.IntN(480)) * sec
+					do(fmt.Sprintf("sil %d %d %d", now, b, d))
+					do(fmt.Sprintf("sil %d %d %d", now, b+1, d))
+					break
+				}
 				do(fmt.Sprintf("sil %d %d %d", now, 1+r.IntN(nAlerts), int64(10+r.IntN(120))*sec))
 			case x < 73:
 				do(fmt.Sprintf("unsil %d %d", now, 1+r.IntN(nAlerts)))
-			case x < 85:
+			case x < 85 && len(w.srs) > 0:
 				mode := hx.Pick(r, []string{"ok", "ok", "ok", "rec", "unrec", "hang"})
 				lat := int64(0)
 				if r.IntN(3) == 0 {
